@@ -291,19 +291,26 @@ def check_obligation(vc, ob, rlimit=RLIMIT, use_cvc5=True):
     """Discharge one obligation. Sets ob.status/backend/time/model."""
     t0 = time.time()
     r = z3.unknown
-    # pass 1: E-matching only (fast, complete enough for most VCs); pass 2: with MBQI
-    for mbqi in (False, True):
+    # pass 0: quantified hypotheses sliced to the symbol families of the goal (dropping hypotheses is sound);
+    # pass 1: all hypotheses, E-matching only; pass 2: with MBQI
+    sliced = slice_hypotheses(ob)
+    plans = []
+    if sliced is not None:
+        plans.append(("slice", sliced, False, max(rlimit // 4, 1000000)))
+    plans.append(("full", list(ob.pc), False, max(rlimit // 4, 1000000)))
+    plans.append(("full", list(ob.pc), True, rlimit))
+    for tag, facts, mbqi, rl in plans:
         s = z3.Solver()
-        s.set("rlimit", rlimit if mbqi else max(rlimit // 4, 1000000))
+        s.set("rlimit", rl)
         s.set("timeout", TIMEOUT_MS)
         s.set("mbqi", mbqi)
         for ax in vc.axioms():
             s.add(ax)
-        for f in ob.pc:
+        for f in facts:
             s.add(f)
         s.add(z3.Not(ob.goal))
         r = s.check()
-        if r == z3.unsat or (r == z3.sat and mbqi):
+        if r == z3.unsat or (r == z3.sat and mbqi and tag == "full"):
             break
     ob.backend = "z3"
     if r == z3.unsat:
@@ -329,6 +336,57 @@ def check_obligation(vc, ob, rlimit=RLIMIT, use_cvc5=True):
                 ob.reason = "z3 unknown (%s), cvc5 sat" % ob.reason
     ob.time = time.time() - t0
     return ob
+
+
+_FAMILY_RE = None
+
+
+def _families(e, acc=None, seen=None):
+    """Names of uninterpreted symbols of a term, normalised to their heap-field / ghost family."""
+    import re
+    global _FAMILY_RE
+    if _FAMILY_RE is None:
+        _FAMILY_RE = re.compile(r"^(?:H0_|H_|L_|M_|D|Dg_|Lg_|g_|G0_|M_g_|hv_)?(.*?)(?:!\d+)?$")
+    acc = set() if acc is None else acc
+    seen = set() if seen is None else seen
+    stack = [e]
+    while stack:
+        t = stack.pop()
+        i = t.get_id()
+        if i in seen:
+            continue
+        seen.add(i)
+        if z3.is_quantifier(t):
+            stack.append(t.body())
+            continue
+        if z3.is_app(t):
+            d = t.decl()
+            if d.kind() == z3.Z3_OP_UNINTERPRETED:
+                m = _FAMILY_RE.match(d.name())
+                acc.add(m.group(1) if m else d.name())
+            stack.extend(t.children())
+    return acc
+
+
+def slice_hypotheses(ob):
+    """Keep every quantifier-free hypothesis, and only those quantified ones that talk about a
+    symbol family the goal (transitively, through quantifier-free facts) depends on."""
+    from .engine import _has_quantifier
+    qs = [f for f in ob.pc if _has_quantifier(f)]
+    if len(qs) < 6:
+        return None
+    goal_fams = _families(ob.goal)
+    goal_fams -= {"alloc", "alloc0", "path", "typeof"}
+    keep = [f for f in ob.pc if not _has_quantifier(f)]
+    kept_q = 0
+    for f in qs:
+        fams = _families(f) - {"alloc", "alloc0", "path", "typeof", "k", "r", "j", "m", "i", "x"}
+        if fams & goal_fams:
+            keep.append(f)
+            kept_q += 1
+    if kept_q == len(qs):
+        return None
+    return keep
 
 
 def run_cvc5(smt2, timeout_s=60):
